@@ -367,11 +367,17 @@ func (w *Workspace) removeUnreachableLocked(reachable map[string]bool) {
 }
 
 func (w *Workspace) addMissingReachableLocked(reachable map[string]bool) bool {
-	added := false
+	// Add missing files in path order so FileOrder and the index do not depend on map iteration order.
+	missing := make([]string, 0, len(reachable))
 	for path := range reachable {
-		if w.index.FileIndex(path) != nil {
-			continue
+		if w.index.FileIndex(path) == nil {
+			missing = append(missing, path)
 		}
+	}
+	sort.Strings(missing)
+
+	added := false
+	for _, path := range missing {
 		content, err := os.ReadFile(path)
 		if err != nil {
 			continue
